@@ -278,12 +278,20 @@ def _r20_4(res, P, cfgname):
             if cp != "<T as core::convert::TryInto<U>>::try_into":
                 continue
             g = fr.get("g", [])
-            if len(g) < 2 or g[1] not in ("u32", "u64", "u16", "u8") or "dashu_int" not in g[0]:
+            if len(g) >= 2 and "dashu_int" in g[0] and g[1] not in ("u32", "u16", "u8"):
+                # the proc-macro runs on the host: a literal converted to a type whose width depends on the host
+                # word (Word, DoubleWord = u64 / u128, usize) or is wider than the 32-bit const path is expanded
+                # to `<lit> as _`, which truncates on a target with a narrower word
+                n += 1
+                res.fail("R20.4", cfgname, "try_into::<%s> in %s" % (g[1], f["p"]),
+                         "%s converts the parsed integer to %s: the const-expression path must go through a fixed 32-bit value (u32); a host-sized or wider literal is truncated by `as _` on targets with a smaller word" % (f["p"], g[1]), span_loc(t["sp"]))
+                continue
+            if len(g) < 2 or g[1] not in ("u32", "u16", "u8") or "dashu_int" not in g[0]:
                 continue
             n += 1
             S = S or sym.Sym(f)
             cfg = cfg or mir.cfg_of(f["mir"])
-            bits = {"u8": 8, "u16": 16, "u32": 32, "u64": 64}[g[1]]
+            bits = {"u8": 8, "u16": 16, "u32": 32}[g[1]]
             arg = strip_bb(S.operand(t["a"][0]))
             ok = False
             seen_k = []
